@@ -134,6 +134,7 @@ type Driver struct {
 	Bin string
 	Bins   map[string]string // variant -> binary ("", "trimpath", "deep", "deep-trimpath")
 	GoJSON map[string]string // json.Marshal text of the named Go values, as the driver reports them
+	Note   string
 }
 
 // buildDriver copies the driver template next to the scratch root and compiles it against the
